@@ -121,6 +121,8 @@ def write_kind(fn, n):
             return "call(operator%s)" % op
         return None
     if k == "call" and p.get("ck") == "member" and isinstance(p.get("obj"), dict) and p["obj"].get("id") == n["id"]:
+        if (n.get("type") or "").rstrip().endswith("*"):
+            return None  # a call through a pointer does not modify the pointer
         if p.get("constm") is False:
             return "call(%s)" % (p.get("callee") or "?").split("::")[-1]
         return None
